@@ -3,6 +3,7 @@
 package clos
 
 import (
+	"slices"
 	"sort"
 	"strconv"
 	"strings"
@@ -412,7 +413,7 @@ func (c *StandardClass) mergeSupers() bool {
 	for _, ic := range c.inherit {
 		c.precedence = append(c.precedence, slip.Symbol(ic.Name()))
 	}
-	if 0 < len(c.baseClass) && c.precedence[len(c.precedence)-1] != c.baseClass {
+	if 0 < len(c.baseClass) && !slices.Contains(c.precedence, c.baseClass) {
 		c.precedence = append(c.precedence, c.baseClass)
 	}
 	c.precedence = append(c.precedence, slip.TrueSymbol)
